@@ -56,12 +56,14 @@ inline std::vector<Family> families(bool thorough, uint64_t seed, int seqlen /*0
 	// ---- sequences of Sigma words at start / middle / end, rest no-op
 	if (seqlen > 0) {
 		uint64_t n = 1; for (int i = 0; i < seqlen; ++i) n *= S->size();
-		fam.push_back({ seqlen == 2 ? "seq2" : "seq3", n * 3, [=](uint64_t idx, bool v2, ProgBuf& p) {
+		// position 3 straddles the END of the program: the first word is the last executed slot, the following word(s) lie in the part of the
+		// 384-word buffer a v1 program must ignore (in a real hash that part holds generator output, not no-ops) - seeded change agent6_C04
+		fam.push_back({ seqlen == 2 ? "seq2" : "seq3", n * 4, [=](uint64_t idx, bool v2, ProgBuf& p) {
 			set_config_block(p, (int)(idx % ncfg));
 			p.fill_noop();
-			int pos = (int)(idx % 3); uint64_t k = idx / 3;
+			int pos = (int)(idx % 4); uint64_t k = idx / 4;
 			int N = prog_size(v2);
-			int base = pos == 0 ? 0 : pos == 1 ? N / 2 - 1 : N - seqlen;
+			int base = pos == 0 ? 0 : pos == 1 ? N / 2 - 1 : pos == 2 ? N - seqlen : std::min(N - 1, RANDOMX_PROGRAM_MAX_SIZE - seqlen);
 			for (int i = seqlen - 1; i >= 0; --i) { p.set_word(base + i, (*S)[k % S->size()]); k /= S->size(); }
 		} });
 	}
@@ -113,6 +115,8 @@ inline std::vector<Family> families(bool thorough, uint64_t seed, int seqlen /*0
 			}
 		} });
 	}
+	// families that leave the ignored tail of a v1 buffer as no-ops get it filled with a copy of the program's own first words (v2 has no tail)
+	for (auto& f : fam) if (f.name == "writer" || f.name == "count") { auto inner = f.make; f.make = [inner](uint64_t idx, bool v2, ProgBuf& p) { inner(idx, v2, p); if (!v2) for (int s = RANDOMX_PROGRAM_SIZE_V1; s < RANDOMX_PROGRAM_MAX_SIZE; ++s) p.set_word(s, p.word(s - RANDOMX_PROGRAM_SIZE_V1)); }; }
 	// ---- sanity floor: AES-generated programs, as a real hash would produce (sampling, reported separately)
 	{
 		Family f{ "aesrand", n_aesrand ? n_aesrand : (thorough ? 2000u : 300u), [=](uint64_t idx, bool v2, ProgBuf& p) {
